@@ -83,6 +83,8 @@ def candidates(src, funcs):
             if re.match(r"^(defer\s+)?[\w\.\[\]\(\)\*&]+\([^{}]*\)$", st) or re.search(r"(\+\+|--)$", st) or re.search(r"[^=!<>]\s(\+=|-=)\s", st):
                 if not st.startswith(("return", "panic", "logging.", "logger.", "go ")):
                     out.append((ln, 0, "del", name, "delete statement `%s`" % st[:60]))
+            if re.match(r"^[\w\.\[\]\*]+ = [^{]+$", st) and "." in st.split(" = ")[0]:
+                out.append((ln, 0, "del", name, "delete assignment `%s`" % st[:60]))
             if re.match(r"^(logging|logger)\.", st):
                 continue
             for m in TOKEN.finditer(code):
@@ -191,7 +193,7 @@ def main():
     vjobs = int(opt("--vjobs", "2"))
     budget = opt("--budget", "")
     only = opt("--only")
-    out = opt("--out", "/tmp/mut-%s-%s" % (pid, os.path.basename(rel)[:-3]))
+    out = opt("--out", "/tmp/mut-%s-%s" % (pid.replace(",", "_"), os.path.basename(rel)[:-3]))
     os.makedirs(out, exist_ok=True)
     src = open(os.path.join(REPO, rel)).read()
     lines, cands = candidates(src, funcs)
@@ -238,8 +240,16 @@ def main():
         e = dict(ENV, VERIF_SCRATCH=d, VERIF_MUTANT="%s=%s" % (rel, res[i]["file"]), VERIF_NPROC=str(max(2, 16 // vjobs)))
         if budget:
             e["VERIF_BUDGET"] = budget
-        rc, o = sh("%s %s quick" % (os.path.join(VERIF, "bin", "vcheck"), pid), cwd=VERIF, env=e, timeout=2400)
-        sigs = re.findall(r"signature: (.*)", o)
+        rc, o, sigs = 0, "", []
+        for one in pid.split(","):  # several properties: stop at the first check that reports the change
+            rc1, o1 = sh("%s %s quick" % (os.path.join(VERIF, "bin", "vcheck"), one), cwd=VERIF, env=e, timeout=2400)
+            sigs += re.findall(r"signature: (.*)", o1)
+            o += o1
+            if rc1 == 1:
+                rc = 1
+                break
+            if rc1 != 0:
+                rc = rc1
         res[i].update({"vcheck_rc": rc, "signatures": sigs[:4], "tail": o[-300:] if rc not in (0, 1) else ""})
         res[i]["verdict"] = {0: "MISSED", 1: "caught"}.get(rc, "harness-error")
         shutil.rmtree(os.path.join(d, ".build"), ignore_errors=True)
